@@ -76,6 +76,8 @@ def check_paired(ctx, wm: WeaverModel):
             continue
         for f in ('x', 'y'):
             rf = 'reference_' + f
+            if f in ls or rf in ls:
+                n += 1
             if f in ls and rf not in ls:
                 ctx.fail('C08.2', f"{op}: the transformation of {f} is also applied to {rf}",
                          f"{op} stores self.{f} = {show(ls[f][-1].data['value'], 160)} but never stores self.{rf}", ls[f][-1].loc(), mf.fi.qualname, f"{op}:{rf}:missing")
@@ -86,7 +88,6 @@ def check_paired(ctx, wm: WeaverModel):
                 continue
             if f not in ls:
                 continue
-            n += 1
             ew, er = ls[f][-1], ls[rf][-1]
             want = rename_refs(ew.data['value'], W2R)
             # the working length symbol becomes the reference length symbol
